@@ -564,3 +564,5 @@ def summarize(results, tier):
         "samples": samples[:4] + [{"substitution": "handler returns 'SUBST' for dataset target", "contexts": len(cat.CONTEXTS)}],
         "exhaustive": True,
     }
+
+RULE += ' Session 4: the dataset class in every dependency position (dataset / step arguments, collection, switch branch, coalesce member, source of >> and of bind) with a substituting handler.'
